@@ -69,9 +69,12 @@ impl Package {
         r is Ok ==> final(self).metadata.signature == built_sig(Some(header_digest(*old(self))), Seq::<Seq<u8>>::empty()),
         r is Ok ==> get_str(final(self).metadata.signature, 273) == Some(header_digest(*final(self))),
         r is Err ==> final(self).metadata.signature == old(self).metadata.signature,''',
-       before=[('let mut header_bytes', 'proof { broadcast use axiom_built_sig_digest; }\n        ')],
-       after=[('let sig_header_builder =\n            SignatureHeaderBuilder::new().set_sha256_digest(&header_digest_sha256);', '''
-        proof { assert(sigs_view(sig_header_builder.openpgp_signatures@) =~= Seq::<Seq<u8>>::empty()); }''')]),
+       prologue='''proof {
+            broadcast use axiom_built_sig_digest;
+            assert forall|v: Seq<Vec<u8>>| v.len() == 0 implies #[trigger] sigs_view(v) == Seq::<Seq<u8>>::empty() by {
+                assert(sigs_view(v) =~= Seq::<Seq<u8>>::empty());
+            }
+        }'''),
     Fn(PKG, 'sign_with_timestamp', impl='impl Package',
        subs=[ret(),
              ('S: signature::Signing<Signature = Vec<u8>>', 'S: signature::Signing', 1, 'R5-associated-type-binding'),
@@ -88,8 +91,8 @@ impl Package {
             seq![signer.signed(ser_header(old(self).metadata.header), t)]),
         r is Ok ==> get_str(final(self).metadata.signature, 273) == Some(header_digest(*final(self))),
         r is Err ==> final(self).metadata.signature == old(self).metadata.signature,''',
-       before=[('let mut header_bytes', 'proof { broadcast use axiom_built_sig_digest; }\n        '),
-               ('let sig_header = SignatureHeaderBuilder::new()', '''let ghost hs = header_signature@;
+       prologue='proof { broadcast use axiom_built_sig_digest; }',
+       before=[('let sig_header = SignatureHeaderBuilder::new()', '''let ghost hs = header_signature@;
         proof {
             assert forall|v: Seq<Vec<u8>>| v.len() == 0 implies sigs_view(#[trigger] v.push(header_signature)) == seq![hs] by {
                 assert(sigs_view(v.push(header_signature)) =~= seq![hs]);
